@@ -4,6 +4,7 @@
    (losers, expired winners = a retirement transaction of the ordinary protocol). *)
 From Coq Require Import List NArith Bool.
 From Feox Require Import Model.Device Proofs.CrashProofs.
+From Feox Require Gen.Constants Model.Bytes Model.Codec Model.FreeSpace Model.MetaJournal Model.Recovery Proofs.ScanAcceptsProofs Proofs.ScanQuiescentProofs.
 Import ListNotations.
 Local Open Scope N_scope.
 
@@ -61,14 +62,57 @@ Theorem crash_inside_retirement_changes_nothing :
   forall s d,
   PInv s -> crash_image (dv s) d ->
   exists seen, recover d = Some seen /\
-    ((forall k, contents seen k = before s k) \/ (forall k, contents seen k = after s k)).
+    ((forall k, contents seen k = before s k) \/ (forall k, contents seen k = after s k))
+
+(* ---- at the byte level, files at rest (Model/Recovery.v): open_image on a file whose metadata
+   decodes, whose journal is clear and whose data area is any quiescent layout writes nothing, so
+   opening it again -- any number of times -- gives the same answer ---- *).
 Proof. exact crash_atomic. Qed.
 Check crash_inside_retirement_changes_nothing :
   forall s d,
   PInv s -> crash_image (dv s) d ->
   exists seen, recover d = Some seen /\
-    ((forall k, contents seen k = before s k) \/ (forall k, contents seen k = after s k)).
+    ((forall k, contents seen k = before s k) \/ (forall k, contents seen k = after s k))
+
+(* ---- at the byte level, files at rest (Model/Recovery.v): open_image on a file whose metadata
+   decodes, whose journal is clear and whose data area is any quiescent layout writes nothing, so
+   opening it again -- any number of times -- gives the same answer ---- *).
 Print Assumptions crash_inside_retirement_changes_nothing.
+
+Theorem reopening_a_file_at_rest_changes_nothing :
+  forall c img m jgen jslot its n,
+  Recovery.c_ro c = false -> Recovery.c_now c = None ->
+  (17 <= length img)%nat ->
+  let total := N.of_nat (length img) in
+  let mb := if MetaJournal.select_meta (Recovery.nth_block img 0) (Recovery.nth_block img (N.to_nat Constants.FEOX_METADATA_BACKUP_BLOCK))
+            then Recovery.nth_block img (N.to_nat Constants.FEOX_METADATA_BACKUP_BLOCK) else Recovery.nth_block img 0 in
+  Bytes.list_eqb (firstn 8 mb) MetaJournal.SIGNATURE = true -> MetaJournal.decode_meta mb = Some m ->
+  Codec.has_token (MetaJournal.m_version m) = true ->
+  MetaJournal.decode_journal (Recovery.slot_bytes img 0) (Recovery.slot_bytes img 1) total = Some (jgen, jslot, []) ->
+  total * Constants.FEOX_BLOCK_SIZE < FreeSpace.U64 ->
+  Forall (ScanQuiescentProofs.item_ok (MetaJournal.m_version m)) its ->
+  ScanAcceptsProofs.distinct_keys (ScanQuiescentProofs.recs_of its) ->
+  skipn (N.to_nat Constants.FEOX_DATA_START_BLOCK) img =
+    ScanQuiescentProofs.ilayout (MetaJournal.m_version m) Constants.FEOX_DATA_START_BLOCK its ->
+  ScanQuiescentProofs.reopen c n img = Recovery.open_image c img /\ snd (Recovery.open_image c img) = img.
+Proof. exact ScanQuiescentProofs.reopening_a_quiescent_file_changes_nothing. Qed.
+Check reopening_a_file_at_rest_changes_nothing :
+  forall c img m jgen jslot its n,
+  Recovery.c_ro c = false -> Recovery.c_now c = None ->
+  (17 <= length img)%nat ->
+  let total := N.of_nat (length img) in
+  let mb := if MetaJournal.select_meta (Recovery.nth_block img 0) (Recovery.nth_block img (N.to_nat Constants.FEOX_METADATA_BACKUP_BLOCK))
+            then Recovery.nth_block img (N.to_nat Constants.FEOX_METADATA_BACKUP_BLOCK) else Recovery.nth_block img 0 in
+  Bytes.list_eqb (firstn 8 mb) MetaJournal.SIGNATURE = true -> MetaJournal.decode_meta mb = Some m ->
+  Codec.has_token (MetaJournal.m_version m) = true ->
+  MetaJournal.decode_journal (Recovery.slot_bytes img 0) (Recovery.slot_bytes img 1) total = Some (jgen, jslot, []) ->
+  total * Constants.FEOX_BLOCK_SIZE < FreeSpace.U64 ->
+  Forall (ScanQuiescentProofs.item_ok (MetaJournal.m_version m)) its ->
+  ScanAcceptsProofs.distinct_keys (ScanQuiescentProofs.recs_of its) ->
+  skipn (N.to_nat Constants.FEOX_DATA_START_BLOCK) img =
+    ScanQuiescentProofs.ilayout (MetaJournal.m_version m) Constants.FEOX_DATA_START_BLOCK its ->
+  ScanQuiescentProofs.reopen c n img = Recovery.open_image c img /\ snd (Recovery.open_image c img) = img.
+Print Assumptions reopening_a_file_at_rest_changes_nothing.
 (* non-vacuity: a crashed disk with an active journal over a torn cell *)
 Example replay_example :
   replay_start (mkdisk (SValid 4 JClear) (SValid 5 (JActive [1%nat])) [CGen (mkgen 7 100 1); CJunk; CMarker]) true 5 [1%nat].
